@@ -115,7 +115,7 @@ type world struct {
 	slots     []*slot
 	files     []*fakeFile
 	holders   map[*fakeFile]int // tasks between Acquire return and Release call
-	acquiring map[*slot]int     // tasks between Acquire invocation and Release return
+	acquiring map[*sharedfile.SharedFile]int // tasks between Acquire invocation and Release return, per SharedFile VALUE (two closers racing on one position can leave two live SharedFiles behind it)
 	openCalls int
 	openFail  map[int]bool
 	closedSF  map[*sharedfile.SharedFile]bool // Close returned
@@ -197,8 +197,8 @@ func (w *world) openCount() (open, pinned int) {
 			open++
 		}
 	}
-	for _, s := range w.slots {
-		if w.acquiring[s] > 0 {
+	for _, sf := range w.all {
+		if w.acquiring[sf] > 0 {
 			pinned++
 		}
 	}
@@ -218,7 +218,7 @@ func execPlan(t *testing.T, pa any) (out core.Outcome) {
 	panicked := sched.Bubble(t, func() {
 		drv = sched.New(p.Sched)
 		drv.MaxSteps = 4000
-		w = &world{drv: drv, out: &out, holders: map[*fakeFile]int{}, acquiring: map[*slot]int{}, openFail: map[int]bool{},
+		w = &world{drv: drv, out: &out, holders: map[*fakeFile]int{}, acquiring: map[*sharedfile.SharedFile]int{}, openFail: map[int]bool{},
 			closedSF: map[*sharedfile.SharedFile]bool{}, cap: p.PoolCap}
 		theWorld = w
 		for _, n := range p.OpenFail {
@@ -288,12 +288,12 @@ func execPlan(t *testing.T, pa any) (out core.Outcome) {
 						}
 					default:
 						sf := s.sf
-						w.acquiring[s]++
+						w.acquiring[sf]++
 						w.inAcquire++
 						f, err := sf.Acquire()
 						w.inAcquire--
 						if err != nil {
-							w.acquiring[s]--
+							w.acquiring[sf]--
 							drv.Logf("%s Acquire slot%d: %v", name, slotIndex(w, s), err)
 							if errors.Is(err, sharedfile.ErrClosed) {
 								out.Probe("acquire-after-close")
@@ -321,7 +321,7 @@ func execPlan(t *testing.T, pa any) (out core.Outcome) {
 						}
 						w.holders[ff]--
 						sf.Release()
-						w.acquiring[s]--
+						w.acquiring[sf]--
 						drv.Logf("%s Release slot%d", name, slotIndex(w, s))
 					}
 				}
